@@ -760,7 +760,7 @@ impl Prop for C14 {
 pub struct C11Case {
     pub width: u8,
     pub extra_threads: u8,
-    /// 0 user pool, 1 default pool, 2 inside a batch, 3 async dispatcher, 4 default pool with a narrow batch registered before the wide stage, 5 inside a batch that is registered before the pool is attached, 6 like 5 with a one-thread pool attached first and replaced, 7 inside a batch inside a batch with the pool attached to the outermost builder last (the innermost dispatcher gets a default pool of its own), 8 like 7 with the pool given to every builder
+    /// 0 user pool, 1 default pool, 2 inside a batch, 3 async dispatcher, 4 default pool with a narrow batch registered before the wide stage, 5 inside a batch that is registered before the pool is attached, 6 like 5 with a one-thread pool attached first and replaced, 7 inside a batch inside a batch with the pool attached to the outermost builder last (the innermost dispatcher gets a default pool of its own), 8 like 7 with the pool given to every builder, 9 four batch levels on one pool, 10 user pool that another dispatcher used before for dispatches whose panics were caught
     pub mode: u8,
     /// number of groups that get a second, chained member (positions >= 1 do not rendezvous)
     pub tail: u8,
@@ -871,7 +871,7 @@ fn c11_plan(case: &C11Case) -> Plan {
         }
         return all;
     }
-    if matches!(case.mode, 2 | 5 | 6 | 7 | 8) {
+    if matches!(case.mode, 2 | 5 | 6 | 7 | 8 | 9) {
         let one = vec![Op::Batch {
             name: "batch".into(),
             deps: vec![],
@@ -881,17 +881,21 @@ fn c11_plan(case: &C11Case) -> Plan {
             inner: ops,
             extra_deps: vec![],
         }];
-        if matches!(case.mode, 7 | 8) {
-            // a batch inside a batch
-            vec![Op::Batch {
-                name: "outer".into(),
-                deps: vec![],
-                decl: 0,
-                ctl: Ctl::Custom { n: 1 },
-                rt: 3,
-                inner: one,
-                extra_deps: vec![],
-            }]
+        if matches!(case.mode, 7 | 8 | 9) {
+            // a batch inside a batch (mode 9: four levels)
+            let mut cur = one;
+            for level in 0..if case.mode == 9 { 3 } else { 1 } {
+                cur = vec![Op::Batch {
+                    name: format!("outer{}", level),
+                    deps: vec![],
+                    decl: 0,
+                    ctl: Ctl::Custom { n: 1 },
+                    rt: 3,
+                    inner: cur,
+                    extra_deps: vec![],
+                }];
+            }
+            cur
         } else {
             one
         }
@@ -911,7 +915,7 @@ impl Prop for C11 {
         "C11"
     }
     fn rule(&self) -> &'static str {
-        "stage width 2..16 x pool size = width + 0..3 (capped at 16) x {user pool via with_pool, default pool, stage inside a batch dispatched twice, async dispatcher, default pool shared with a narrow batch registered first, stage inside a batch registered before the (only, or a replacing second) pool is attached, stage inside a batch inside a batch (pool given to every builder, or to the outermost one last)} x 3 repeated dispatches; oracle: the first system of every group of the widest stage blocks inside run until all of them have arrived; the dispatch must complete with every rendezvous met; a missed rendezvous is retried with 2 s, 5 s, 15 s time-outs and only three misses in a row are a violation; non-trivial = every case (width >= 2); distinct = case hash"
+        "stage width 2..16 x pool size = width + 0..3 (capped at 16) x {user pool via with_pool, default pool, stage inside a batch dispatched twice, async dispatcher, default pool shared with a narrow batch registered first, stage inside a batch registered before the (only, or a replacing second) pool is attached, stage inside a batch inside a batch (pool given to every builder, or to the outermost one last), four batch levels deep, a pool on which another dispatcher's dispatches panicked before} x 3 repeated dispatches; oracle: the first system of every group of the widest stage blocks inside run until all of them have arrived; the dispatch must complete with every rendezvous met; a missed rendezvous is retried with 2 s, 5 s, 15 s time-outs and only three misses in a row are a violation; non-trivial = every case (width >= 2); distinct = case hash"
     }
     fn stream_len(&self) -> usize {
         24
@@ -920,7 +924,7 @@ impl Prop for C11 {
         C11Case {
             width: 2 + src.pick(15) as u8,
             extra_threads: src.pick(4) as u8,
-            mode: src.pick(9) as u8,
+            mode: src.pick(11) as u8,
             tail: src.pick(6) as u8,
             join: src.chance(8, 16),
             hints: src.pick(3) as u8,
@@ -1015,6 +1019,7 @@ fn c11_attempt(
     let wide_bid = match case.mode {
         2 | 5 | 6 => 1,
         7 | 8 => 2,
+        9 => 4,
         _ => 0,
     };
     let w = case.width.clamp(2, 16) as usize;
@@ -1045,11 +1050,35 @@ fn c11_attempt(
     };
     let builder = build_builder(plan, &flat, 0, &ctx, user_pool, &opts)
         .map_err(|e| Fail::new(format!("builder panicked: {}", e.msg)))?;
+    if case.mode == 10 {
+        // the pool has a past: another dispatcher used it for dispatches that panicked (caught)
+        struct Boom;
+        impl<'a> shred::System<'a> for Boom {
+            type SystemData = ();
+            fn run(&mut self, _: ()) {
+                std::panic::panic_any(HarnessFault(usize::MAX));
+            }
+        }
+        struct Quiet;
+        impl<'a> shred::System<'a> for Quiet {
+            type SystemData = ();
+            fn run(&mut self, _: ()) {}
+        }
+        let mut other = shred::DispatcherBuilder::new()
+            .with_pool(pool(lane, threads))
+            .with(Boom, "boom", &[])
+            .with(Quiet, "quiet", &[])
+            .build();
+        let w = World::empty();
+        for _ in 0..4 * threads + 4 {
+            let _ = catch_unwind(AssertUnwindSafe(|| other.dispatch(&w)));
+        }
+    }
     *ctx.rdv.lock().unwrap() = Some(rdv.clone());
     ctx.set_phase(PHASE_RUN);
     let dispatches = 3usize;
     let _ = &flat;
-    let inner_factor = if matches!(case.mode, 2 | 5 | 6 | 7 | 8) { 2 } else { 1 };
+    let inner_factor = if matches!(case.mode, 2 | 5 | 6 | 7 | 8 | 9) { 2 } else { 1 };
     let r = catch_unwind(AssertUnwindSafe(|| {
         if case.mode == 3 {
             let mut d = builder.build_async(fresh_world());
@@ -1729,6 +1758,10 @@ pub struct C04BigPlanCase {
     pub delta: u8,
     pub inner: u8,
     pub sequential: bool,
+    /// instead of one dispatch of a batch that plans n inner dispatches: n dispatches of a plain
+    /// dispatcher
+    #[serde(default)]
+    pub many_dispatches: bool,
 }
 
 impl Prop for C04BigPlan {
@@ -1740,7 +1773,7 @@ impl Prop for C04BigPlan {
         "C04"
     }
     fn rule(&self) -> &'static str {
-        "one MultiDispatcher batch with 1..3 inner systems whose controller plans 2^k - 1, 2^k or 2^k + 1 inner dispatches (k = 1..16: the values around every width a counter might be narrowed to), dispatched once with dispatch or dispatch_seq on a one-thread pool; oracle: every inner system has run exactly the planned number of times; non-trivial = planned >= 255; distinct = case hash"
+        "one MultiDispatcher batch with 1..3 inner systems whose controller plans 2^k - 1, 2^k or 2^k + 1 inner dispatches (k = 1..16: the values around every width a counter might be narrowed to), dispatched once with dispatch or dispatch_seq on a one-thread pool - or, in 3/8 of the cases, a plain dispatcher of 1..3 systems dispatched that many times; oracle: every system has run exactly that number of times; non-trivial = planned >= 255; distinct = case hash"
     }
     fn stream_len(&self) -> usize {
         8
@@ -1756,6 +1789,7 @@ impl Prop for C04BigPlan {
             delta: src.pick(3) as u8,
             inner: 1 + src.pick(3) as u8,
             sequential: src.chance(8, 16),
+            many_dispatches: src.chance(6, 16),
         }
     }
     fn check(&self, case: &C04BigPlanCase, lane: usize, st: &mut Stats) -> Result<(), Fail> {
@@ -1773,6 +1807,37 @@ impl Prop for C04BigPlan {
                 extra_deps: vec![],
             })
             .collect();
+        if case.many_dispatches {
+            // the 2^k-th use of one dispatcher
+            let mut b = build_plan(&inner, pool(lane, 1), &BuildOpts::default())
+                .map_err(|e| Fail::keyed("build-or-identify", e))?;
+            let flat = b.flat.clone();
+            let world = fresh_world();
+            b.ctx.reset_counters();
+            b.ctx.log_on.store(false, SeqCst);
+            b.ctx.set_phase(PHASE_RUN);
+            let r = catch_unwind(AssertUnwindSafe(|| {
+                for _ in 0..planned {
+                    if case.sequential {
+                        b.d.dispatch_seq(&world);
+                    } else {
+                        b.d.dispatch(&world);
+                    }
+                }
+            }));
+            b.ctx.set_phase(PHASE_BUILD);
+            b.ctx.log_on.store(true, SeqCst);
+            if let Err(p) = r {
+                return Err(Fail::keyed("panic", format!("one of {} dispatches panicked: {}", planned, describe_panic(&p))));
+            }
+            check_counts(&flat, &b.ctx.runs(), &expected_runs(&flat, planned, 0))
+                .map_err(|f| Fail::new(format!("after {} dispatches of one dispatcher: {}", planned, f.msg)))?;
+            st.class(&format!("dispatches_2^{}", k));
+            if planned >= 255 {
+                st.nontrivial(case, || json!({"dispatches": planned}));
+            }
+            return Ok(());
+        }
         let plan = vec![Op::Batch {
             name: "batch".into(),
             deps: vec![],
